@@ -57,6 +57,41 @@ def writable_sections():
     return bad, len(objs)
 
 
+REENTRANT = {'memcpy', 'memset', 'memmove', 'memcmp', 'memchr', 'strlen', 'strnlen', 'strcmp', 'strncmp', 'strcpy', 'strncpy', 'strcat', 'strncat', 'strchr', 'strrchr', 'strstr',
+             'abs', 'labs', 'llabs', '__assert_fail', 'abort', '__stack_chk_fail', '_GLOBAL_OFFSET_TABLE_', '__errno_location', 'htonl', 'htons', 'ntohl', 'ntohs',
+             '__udivdi3', '__umoddi3', '__divdi3', '__moddi3', '__popcountdi2', '__bswapdi2', '__bswapsi2', '__memcpy_chk', '__memset_chk', '__strncpy_chk', '__strcpy_chk'}
+HIDDEN_STATE = {'strtok': 'keeps its position in a static variable', 'rand': 'hidden generator state', 'srand': 'hidden generator state', 'random': 'hidden generator state', 'srandom': 'hidden generator state',
+                'drand48': 'hidden generator state', 'lrand48': 'hidden generator state', 'mrand48': 'hidden generator state', 'localtime': 'returns a static object', 'gmtime': 'returns a static object',
+                'ctime': 'returns a static buffer', 'asctime': 'returns a static buffer', 'strerror': 'may return a static buffer', 'getenv': 'reads the process environment', 'setenv': 'writes the process environment',
+                'putenv': 'writes the process environment', 'setlocale': 'process-global locale', 'tmpnam': 'static buffer', 'inet_ntoa': 'returns a static buffer', 'gethostbyname': 'returns a static object',
+                'printf': 'writes the shared stdout stream', 'puts': 'writes the shared stdout stream', 'putchar': 'writes the shared stdout stream', 'fprintf': 'writes a shared stream', 'fputs': 'writes a shared stream',
+                'fwrite': 'writes a shared stream', 'perror': 'writes the shared stderr stream', 'stdout': 'shared stream', 'stderr': 'shared stream', 'stdin': 'shared stream', 'signgam': 'global written by lgamma',
+                'lgamma': 'writes the global signgam', 'lgammaf': 'writes the global signgam', 'atexit': 'process-global handler list', 'signal': 'process-global disposition', 'environ': 'process environment'}
+
+
+def external_references(bdir):
+    """what the library objects reference outside themselves: a function of the C library with hidden static state is
+    writable shared state the instrumentation of the library's own loads and stores cannot see"""
+    own, ext = set(), {}
+    for opt in ('-O0', '-O2'):
+        d = os.path.join(bdir, 'ext' + opt)
+        os.makedirs(d, exist_ok=True)
+        cmds, objs = [], []
+        for s_ in core.repo_sources():
+            o = os.path.join(d, core.objname(s_))
+            cmds.append(['gcc', '-std=gnu99', opt, '-I' + os.path.join(core.REPO, 'include'), '-c', s_, '-o', o])
+            objs.append(o)
+        core.par(cmds)
+        for o in objs:
+            for line in core.sh(['nm', o]).stdout.splitlines():
+                p = line.split()
+                if len(p) == 2 and p[0] == 'U':
+                    ext.setdefault(p[1], set()).add(os.path.basename(o).split('_src_avtp_')[-1])
+                elif len(p) == 3 and p[1] in 'TtDdBbRrVvWw':
+                    own.add(p[2])
+    return {k: sorted(v) for k, v in ext.items() if k not in own}
+
+
 def run(prop, tier):
     t0 = time.time()
     b = core.fresh_dir(os.path.join(core.ROOT, 'build', 'C16'))
@@ -76,6 +111,14 @@ def run(prop, tier):
     bad, nobj = writable_sections()
     for x in bad:
         res.viol[('C16', 'writable static storage in the library: ' + x)] = {'count': 1, 'case': 'O:0', 'detail': x, 'tag': ''}
+    ext = external_references(b)
+    unclassified = []
+    for name, where in sorted(ext.items()):
+        res.counters['cases'] = res.counters.get('cases', 0) + 1
+        if name in HIDDEN_STATE:
+            res.viol[('C16', 'library calls %s (%s)' % (name, HIDDEN_STATE[name]))] = {'count': len(where), 'case': 'O:0', 'detail': 'referenced from %s' % ', '.join(where[:6]), 'tag': ''}
+        elif name not in REENTRANT:
+            unclassified.append('%s (%s)' % (name, ', '.join(where[:3])))
     res.counters['cases'] = res.counters.get('cases', 0) + nobj
     capped = [d for d in drivers if 'CAPPED' in d]
     if capped:
@@ -85,8 +128,8 @@ def run(prop, tier):
     for k, v in tsan.get('viol', {}).items():
         res.viol[('C16', k)] = v
     core.finish('C16', tier, t0, res,
-                rule='(i) every public function run once with every load/store of the library hooked (compiler instrumentation bound to our runtime, -O0 and -O2 builds): an access outside {caller stack, passed objects, read-only image segments} is a violation; object files must have empty .data/.bss. (ii) 6 drivers x {2 threads, preemption bound %s} and {3 threads, bound %s}: ALL schedules within the bound (scheduling point = every hooked access to memory that is neither the running thread\'s stack nor a read-only segment), per-thread results and final buffers compared with the sequential reference; planted shared-counter toy must be found first' % (('4', '3') if tier == 'thorough' else ('3', '2')),
-                bounds={'preemption_bound': {'2 threads': 4, '3 threads': 3} if tier == 'thorough' else {'2 threads': 3, '3 threads': 2}, 'threads': [2, 3], 'drivers': drivers, 'info': infos, 'free_running_tsan': tsan.get('summary')},
+                rule='(i) every public function run once with every load/store of the library hooked (compiler instrumentation bound to our runtime, -O0 and -O2 builds): an access outside {caller stack, passed objects, read-only image segments} is a violation; object files must have empty .data/.bss and may reference outside themselves only functions known to keep no hidden state (a reference to strtok, rand, localtime, stdio ... is a violation; unknown names are listed). (ii) 6 drivers x {2 threads, preemption bound %s} and {3 threads, bound %s}: ALL schedules within the bound (scheduling point = every hooked access to memory that is neither the running thread\'s stack nor a read-only segment), per-thread results and final buffers compared with the sequential reference; planted shared-counter toy must be found first' % (('4', '3') if tier == 'thorough' else ('3', '2')),
+                bounds={'external_references': sorted(ext), 'external_references_not_classified': unclassified, 'preemption_bound': {'2 threads': 4, '3 threads': 3} if tier == 'thorough' else {'2 threads': 3, '3 threads': 2}, 'threads': [2, 3], 'drivers': drivers, 'info': infos, 'free_running_tsan': tsan.get('summary')},
                 assumptions=['sequentially consistent interleavings of the compiled code\'s memory accesses; hardware reordering is only covered by the free-running ThreadSanitizer pass',
                              'the -O0 build decides (an optimiser may legitimately keep a source-level shared variable in a register); -O2 is the production-like build',
                              'reads of read-only image segments are not scheduling points (immutable memory commutes with every other access)'],
